@@ -10,7 +10,7 @@ PROP = "C11"
 TABLES = []
 MODELS = [("c11", "Extract/ExC11.v", "run_C11")]
 
-FIELDS = ["status", "vertical_scroll", "vertical_scroll_2", "horizontal_scroll", "margin_width",
+FIELDS = ["status", "vertical_scroll", "vertical_scroll_2", "horizontal_scroll", "margin_width", "body_width",
           "content_cursor", "screen_cursor", "rowcol_to_yx", "rowcol_to_yx_extra_keys",
           "visible_line_to_row_col", "cells"]
 
@@ -23,9 +23,14 @@ ALPHABETS = {
 }
 
 
-def mkcfg(wrap=1, margin=0, offs=(0, 0, 0, 0), pf=None, tabstop=0, before=None):
+def mkcfg(wrap=1, margin=0, offs=(0, 0, 0, 0), pf=None, tabstop=0, before=None, allow=0):
+    """margin: 0 none, 1 left NumberedMargin, 2 right ScrollbarMargin, 3 both"""
     pfx = [0, [], [], 0] if pf is None else [1, S(pf[0]), S(pf[1]), int(pf[2])]
-    return [int(wrap), int(margin), list(offs), pfx, tabstop, [1, S(before)] if before is not None else [0, []]]
+    return [int(wrap), int(margin), list(offs), pfx, tabstop, [1, S(before)] if before is not None else [0, []], int(allow)]
+
+
+def margin_extra(cfg):
+    return (4 if cfg[1] & 1 else 0) + (1 if cfg[1] & 2 else 0)
 
 
 def mkcase(cfg, states):
@@ -62,6 +67,11 @@ def cfgs_small():
         out.append(mkcfg(wrap, 0, (1, 1, 1, 1), pf=(">", ".", 0)))
         out.append(mkcfg(wrap, 1, (1, 0, 0, 0)))
         out.append(mkcfg(wrap, 1, (0, 2, 2, 2), pf=("> ", ". ", 0)))
+        out.append(mkcfg(wrap, 2, (0, 0, 0, 0)))
+        out.append(mkcfg(wrap, 2, (1, 1, 1, 1)))
+        out.append(mkcfg(wrap, 3, (0, 1, 0, 2)))
+        out.append(mkcfg(wrap, 0, (1, 1, 1, 1), allow=1))
+        out.append(mkcfg(wrap, 2, (0, 0, 0, 0), pf=("", ">> ", 0)))
         out.append(mkcfg(wrap, 0, (1, 1, 0, 0), before="$ "))
     return out
 
@@ -71,10 +81,10 @@ def gen_exhaustive(chk, dist):
     configurations, each as a one-state case on a reset window; quick tier takes
     a stratum."""
     rng = chk.rng
-    stratum = 1.0 if chk.tier == "thorough" else 0.022
+    stratum = 0.65 if chk.tier == "thorough" else 0.016
     docs = docs_small()
     for cfg in cfgs_small():
-        extra = 4 if cfg[1] else 0
+        extra = margin_extra(cfg)
         for d in docs:
             for cur in range(len(d) + 1):
                 for W in range(1, 13):
@@ -96,7 +106,7 @@ def rand_text(rng, alpha, maxlines=6):
 
 def rand_cfg(rng, tabs=False):
     wrap = rng.randint(0, 1)
-    margin = rng.random() < 0.25
+    margin = rng.choice([0, 0, 0, 0, 1, 2, 2, 3])
     offs = [rng.choice([0, 0, 1, 2, 3]) for _ in range(4)]
     pf = None
     r = rng.random()
@@ -104,16 +114,16 @@ def rand_cfg(rng, tabs=False):
         a = rng.choice([">", "> ", ">> "])
         pf = (a, "." * len(a), 0)                       # constant width
     elif r < 0.3:
-        pf = (rng.choice([">", "> ", ""]), rng.choice([".", ". ", ""]), rng.randint(0, 1))   # variable width
+        pf = (rng.choice([">", "> ", "", ""]), rng.choice([".", ". ", ">> ", ""]), rng.randint(0, 1))   # variable width
     before = rng.choice(["$ ", "in: ", ""]) if rng.random() < 0.2 else None
     tabstop = rng.choice([1, 2, 3, 4, 8]) if tabs else 0
-    return mkcfg(wrap, margin, offs, pf, tabstop, before)
+    return mkcfg(wrap, margin, offs, pf, tabstop, before, allow=int(rng.random() < 0.15))
 
 
 def rand_states(rng, cfg, alpha, n):
     """A history through one window: typing at the end, cursor motion, jumps,
     edits, new documents, resizes."""
-    extra = 4 if cfg[1] else 0
+    extra = margin_extra(cfg)
     t = rand_text(rng, alpha) if rng.random() < 0.7 else ""
     cur = rng.randint(0, len(t))
     W, H = rng.randint(1, 12) + extra, rng.randint(1, 6)
@@ -161,7 +171,7 @@ def gen_random(chk, dist):
     # long typing runs: one character per render, cursor at the end (the prompt scenario)
     for _ in range(400 if thorough else 40):
         cfg = rand_cfg(rng)
-        extra = 4 if cfg[1] else 0
+        extra = margin_extra(cfg)
         W, H = rng.randint(1, 12) + extra, rng.randint(1, 6)
         t = ""
         states = []
@@ -194,7 +204,8 @@ WITNESSES = [
 ]
 
 MALFORMED = [[], [1], [[1, 0], [], []], [mkcfg(), [], [[5, 2, 0, 0, 7, 0]]], [mkcfg(), [[97, 1, 1]], []],
-             [mkcfg()[:5], [], []], [[2] + mkcfg()[1:], [], []], [mkcfg(tabstop=-1), [], []],
+             [mkcfg()[:5], [], []], [[2] + mkcfg()[1:], [], []], [mkcfg(tabstop=-1), [], []], [mkcfg(margin=4), [], []],
+             [mkcfg()[:6], [], []],
              [mkcfg(), [], [], 0]]
 
 
@@ -206,8 +217,8 @@ def tags_of(cfg, chartab, st, obs, family):
 
 
 def describe_state(cfg, st):
-    return "wrap_lines=%s margin=%s scroll_offsets(top,bottom,left,right)=%r prefix=%r tabstop=%r before_input=%r window=%dx%d at (%d,%d) text=%r cursor=%d" % (
-        bool(cfg[0]), bool(cfg[1]), cfg[2], (unS(cfg[3][1]), unS(cfg[3][2]), cfg[3][3]) if cfg[3][0] else None,
+    return "wrap_lines=%s margins(1=left numbered,2=right scrollbar)=%s allow_beyond_bottom=%s scroll_offsets(top,bottom,left,right)=%r prefix=%r tabstop=%r before_input=%r window=%dx%d at (%d,%d) text=%r cursor=%d" % (
+        bool(cfg[0]), cfg[1], bool(cfg[6]), cfg[2], (unS(cfg[3][1]), unS(cfg[3][2]), cfg[3][3]) if cfg[3][0] else None,
         cfg[4], unS(cfg[5][1]) if cfg[5][0] else None, st[0], st[1], st[2], st[3], unS(st[4]), st[5])
 
 
@@ -273,7 +284,7 @@ def main(tier):
     def describe(c, a, m):
         for j, (x, y) in enumerate(zip(a, m if isinstance(m, list) else [])):
             if x != y:
-                return "state %d: %s | impl=%r model=%r" % (j, describe_state(c[0], c[2][j]), x[:7], y[:7] if isinstance(y, list) else y)
+                return "state %d: %s | impl=%r model=%r" % (j, describe_state(c[0], c[2][j]), x[:8], y[:8] if isinstance(y, list) else y)
         return "shape"
 
     for cases in chunks_of(all_cases(), CHUNK):
@@ -313,7 +324,7 @@ def main(tier):
             chk.count_case(c, nontriv.get(ci, False))
             if (ncases + ci) % 1499 == 0:
                 chk.sample({"config": describe_state(c[0], c[2][0]) if c[2] else "", "n_states": len(c[2]),
-                            "impl_result_head": [r[:7] for r in impl_results[ci][:2]]})
+                            "impl_result_head": [r[:8] for r in impl_results[ci][:2]]})
         t0 = time.time()
         model_results, nbad = correspondence(chk, "c11", cases, impl_results, tagger, describe=describe,
                                              oracle_failed=lambda i: i in oracle_bad)
@@ -358,7 +369,7 @@ def main(tier):
                             "Exhaustive stratum: %d documents x all cursors x widths 1..12 x heights 1..6 x %d configurations (%s); "
                             "non-trivial = some state scrolled (vertical, intra-line or horizontal); distinct by hash of the whole case. "
                             "Oracle evaluated on states inside the property's quantifier (body width >= widest character + prefix)." % (
-                                len(docs_small()), len(cfgs_small()), "100%" if chk.tier == "thorough" else "2.2% sample"))
+                                len(docs_small()), len(cfgs_small()), "65% sample" if chk.tier == "thorough" else "1.6% sample"))
     chk.assumptions += [
         "character widths (get_cwidth of the source character, Char.width and Char.char of the displayed form) are inputs of the model, measured on the implementation per case; the theorems quantify over arbitrary width functions",
         "processors other than BeforeInput and TabsProcessor (highlighting, password, auto-suggestion) and margins other than NumberedMargin's width are outside the model; the default highlight processors are present in the real control and tied only as far as they leave text unchanged",
